@@ -1,0 +1,14 @@
+//go:build verif
+
+// Declarations for the isolation scan (C08).  See /verif/DESIGN.md.
+
+package os
+
+// initGlobals is called from init() only: platform constants of the os module.
+//@ allow-global-write osAltsep
+//@ allow-global-write osDefpath
+//@ allow-global-write osDevnull
+//@ allow-global-write osLinesep
+//@ allow-global-write osName
+//@ allow-global-write osPathsep
+//@ allow-global-write osSep
